@@ -23,7 +23,13 @@ from typing import Any, Generic
 
 from .base import BaseLintContext, BaseLintRule
 from .constants import Language
-from .linter_utils import ConfigType, has_file_content, is_ignored_path, load_linter_config
+from .linter_utils import (
+    ConfigType,
+    has_file_content,
+    is_ignored_path,
+    load_linter_config,
+    project_relative_path,
+)
 from .types import Violation
 
 
@@ -102,7 +108,8 @@ class PythonOnlyLintRule(BaseLintRule, Generic[ConfigType]):
         patterns = getattr(config, "ignore", None)
         if not patterns or context.file_path is None:
             return False
-        return is_ignored_path(Path(context.file_path).as_posix(), [str(p) for p in patterns])
+        # Ignore patterns name places inside the project, however the path was spelled
+        return is_ignored_path(project_relative_path(context), [str(p) for p in patterns])
 
     def _is_enabled(self, config: Any) -> bool:
         """Check if linter is enabled in config."""
